@@ -165,6 +165,39 @@ def shots_case(ctx, specs, n, terms, seed):
     return True
 
 
+def big_shots_case(ctx, rng):
+    """more shots than one sampling chunk (10**7) on a computational-basis state: every estimate is exact"""
+    from tangelo.linq import Circuit, Gate, get_backend
+    from tangelo.toolboxes.operators import QubitOperator
+    n = rng.randint(1, 3)
+    bits = [rng.randrange(2) for _ in range(n)]
+    if not any(bits):
+        bits[rng.randrange(n)] = 1
+    circ = Circuit([Gate("X", q) for q in range(n) if bits[q]], n_qubits=n)
+    op = QubitOperator((), 0.25)
+    exact = 0.25
+    for _ in range(2):
+        w = tuple((q, "Z") for q in range(n) if rng.random() < 0.7) or ((0, "Z"),)
+        c = rng.choice([0.5, -1.25, 2.0])
+        op += QubitOperator(w, c)
+        exact += c * (-1) ** sum(bits[q] for q, _ in w)
+    shots = rng.choice([12_000_000, 20_000_001])
+    case = {"kind": "big_shots", "bits": bits, "n_shots": shots, "terms": [[list(map(list, w)), c] for w, c in op.terms.items()]}
+    ctx.case(case, nontrivial=True, sample=True)
+    ctx.count("big_shots")
+    sim = get_backend("cirq", n_shots=shots)
+    freqs, _ = sim.simulate(circ)
+    key = "".join(map(str, bits))
+    if set(freqs) != {key} or abs(freqs[key] - 1) > 1e-12:
+        ctx.violation(f"n_shots={shots} on the basis state |{key}>: frequencies {freqs} instead of {{'{key}': 1.0}}", case)
+        return False
+    est = float(sim.get_expectation_value(op, circ))
+    if abs(est - exact) > 1e-9:
+        ctx.violation(f"n_shots={shots} on the basis state |{key}>: expectation value {est!r} instead of {exact!r}", case)
+        return False
+    return True
+
+
 def run(ctx):
     rng = ctx.rng
     from props.C01 import rand_init
@@ -203,6 +236,9 @@ def run(ctx):
         n = rng.randint(1, 3)
         specs = vlib.rand_gate_list(rng, n, rng.randint(1, 5), vlib.ALL_UNITARY, corr=0.0, max_controls=1, ang_profile="generic")
         if not shots_case(ctx, specs, n, rand_terms(rng, n, complex_ok=False), rng.randint(0, 10 ** 9)):
+            return
+    for i in range(ctx.n(1, 4)):
+        if not big_shots_case(ctx, rng):
             return
     # empty state-preparation circuit (Backend.simulate shortcut), both backends
     from tangelo.linq import Circuit, get_backend
